@@ -163,6 +163,29 @@ WellFormed(st, cfg) ==
          st.nodes[e].app = Cardinality({f \in EventsOf(st) : f < e /\ st.nodes[f].step = st.nodes[e].step /\ st.nodes[f].rule = st.nodes[e].rule})
    /\ \A t \in st.seen : Range(t[2]) \subseteq st.pool /\ Len(t[2]) = cfg.arity[t[1]]
 
+(* ---- ReactionDeltaFlattener: the network as a list of reactions ------------------------------------------- *)
+(* fcfg = [skipNoChange, allowEmpty, deduplicate]; one record per event node that survives the filters and is the    *)
+(* first with its (reactants, products) pair in node order; sorted by (step, rule, app, id)                          *)
+FlatRec(st, e) == [id |-> e, step |-> st.nodes[e].step, rule |-> st.nodes[e].rule, app |-> st.nodes[e].app,
+                   r |-> Reactants(st, e) \ Products(st, e), p |-> Products(st, e) \ Reactants(st, e)]
+FlatPasses(x, fcfg) == /\ ~(fcfg.skipNoChange /\ x.r = {} /\ x.p = {})
+                       /\ (fcfg.allowEmpty \/ (x.r # {} /\ x.p # {}))
+FlatKept(st, fcfg) ==
+   {e \in EventsOf(st) :
+      LET x == FlatRec(st, e)
+      IN /\ FlatPasses(x, fcfg)
+         /\ ~fcfg.deduplicate \/ \A f \in EventsOf(st) :
+               (f < e /\ FlatPasses(FlatRec(st, f), fcfg)) => <<FlatRec(st, f).r, FlatRec(st, f).p>> # <<x.r, x.p>>}
+FlatBefore(a, b) ==     \* lexicographic on (step, rule, app, id)
+   \/ a.step < b.step
+   \/ a.step = b.step /\ a.rule < b.rule
+   \/ a.step = b.step /\ a.rule = b.rule /\ a.app < b.app
+   \/ a.step = b.step /\ a.rule = b.rule /\ a.app = b.app /\ a.id < b.id
+RECURSIVE FlatSort(_)
+FlatSort(S) == IF S = {} THEN <<>>
+               ELSE LET m == CHOOSE x \in S : \A y \in S \ {x} : FlatBefore(x, y) IN <<m>> \o FlatSort(S \ {m})
+FlatList(st, fcfg) == FlatSort({FlatRec(st, e) : e \in FlatKept(st, fcfg)})
+
 RECURSIVE FirstFailFrom(_, _)
 FirstFailFrom(cl, k) == IF k > Len(cl) THEN "ok"
                         ELSE IF cl[k][2] THEN FirstFailFrom(cl, k + 1) ELSE cl[k][1]
